@@ -23,7 +23,8 @@ ASSUMPTIONS = [
     "quantifies, per name, over the day number (1-28, both written widths), the year (1000-9999) and, for weekday names, "
     "the reference instant (day of month 8-24 as the property states, any month/year 5-9995)",
     "quick tier: a seed-rotated slice of the languages + all regional overlays of the slice + every name whose "
-    "accent-stripped form collides with another vocabulary word + words re-defined by an overlay + every name listed in "
+    "accent-stripped form collides with another vocabulary word + every name containing a format character (ZWNJ/ZWJ) or "
+    "bracket + 1/12 of the names with other punctuation + words re-defined by an overlay + every name listed in "
     "the known finding; thorough tier: all languages and locales, NORMALIZE on and off",
     "while finding C05-vocabulary-conflicts is open, the listed (locale, name) pairs are expected to fail; any other "
     "failing name is a violation, and a listed name that no longer fails is simply not reported",
@@ -184,6 +185,21 @@ def tasks(tier, seed):
         for lang in order:
             for w, kind, val in collision_names(lang):
                 if (lang, w) not in visited:
+                    add(lang, None, w, kind, val)
+                    visited.add((lang, w))
+    if quick:
+        # in every run: names containing a format character (ZWNJ/ZWJ, ...) or a bracket - what input sanitising touches;
+        # plus a seed-rotated share of the names with other punctuation
+        import unicodedata as _ud
+        rot = 0
+        for lang in order:
+            for w, kind, val in names_of(lang):
+                cats = {_ud.category(ch) for ch in w}
+                if (lang, w) in visited or not any(c[0] in "PSC" for c in cats):
+                    continue
+                always = bool(cats & {"Cf", "Ps", "Pe"})
+                rot += 0 if always else 1
+                if always or (rot + seed) % 12 == 0:
                     add(lang, None, w, kind, val)
                     visited.add((lang, w))
     for lang, loc, w, kind, val in overlay_conflicts():
